@@ -13,9 +13,9 @@ package syncer
 // exactly once, with success iff the target was reached; and a new session can be started.
 
 import (
-	"os"
 	"bytes"
 	"fmt"
+	"os"
 	"sort"
 	"strings"
 	"testing"
@@ -45,10 +45,10 @@ func (p *c17plan) next(kind string) string {
 
 type c17run struct {
 	anchorMiss bool // the remote honestly found none of the anchors on its chain
-	added    []*types.Block
-	ancestor *types.BlockInfo
-	stops    []error
-	faults   map[string]int
+	added      []*types.Block
+	ancestor   *types.BlockInfo
+	stops      []error
+	faults     map[string]int
 }
 
 // c17Session drives one synchronisation session to its end. Returns false when it did not end
@@ -219,9 +219,9 @@ func TestC17Sync(t *testing.T) {
 	dfltTimeout = 1500 * time.Millisecond
 	defer func() { dfltTimeout = savedTimeout }()
 	rapid.Check(t, func(t *rapid.T) {
-		common := rapid.IntRange(0, 12).Draw(t, "commonHeight")         // highest shared block
-		localExtra := rapid.IntRange(0, 8).Draw(t, "localExtra")        // local blocks above it
-		remoteExtra := rapid.IntRange(1, 40).Draw(t, "remoteExtra")     // remote blocks above it
+		common := rapid.IntRange(0, 12).Draw(t, "commonHeight")     // highest shared block
+		localExtra := rapid.IntRange(0, 8).Draw(t, "localExtra")    // local blocks above it
+		remoteExtra := rapid.IntRange(1, 40).Draw(t, "remoteExtra") // remote blocks above it
 		base := chain.InitStubBlockChain(nil, common+1)
 		remote := chain.InitStubBlockChain(base.Blocks[0:common+1], remoteExtra)
 		local := chain.InitStubBlockChain(base.Blocks[0:common+1], localExtra)
